@@ -183,4 +183,23 @@ theorem putBody_ok_entry (cfg : Cfg) (ports : String → Option Port) (docs : Li
           rw [upd_other _ _ _ _ hne] at h1 h2
           exact ⟨o', h1, h2⟩
 
+/-- a document whose entries are all accepted on the ports that were there when the PUT started (distinct ids) is
+accepted as a whole -/
+theorem putBody_accepts (cfg : Cfg) (src : List (String × Port)) (ports : String → Option Port)
+    (nd : (src.map (·.1)).Nodup)
+    (h : ∀ x ∈ src, ∃ r, restoreOn cfg (ports x.1) (docOf x.1 x.2) = .ok (some r)) :
+    (putBody cfg ports (src.map (fun x => docOf x.1 x.2))).2 = .ok := by
+  induction src generalizing ports with
+  | nil => rfl
+  | cons x r ih =>
+    simp only [List.map_cons, List.nodup_cons] at nd
+    obtain ⟨q, hq⟩ := h x List.mem_cons_self
+    have hid : (docOf x.1 x.2).id = x.1 := rfl
+    simp only [List.map_cons, putBody, hid, hq]
+    apply ih _ nd.2
+    intro y hy
+    have hne : y.1 ≠ x.1 := fun e => nd.1 (e ▸ List.mem_map_of_mem (f := (·.1)) hy)
+    rw [upd_other _ _ _ _ hne]
+    exact h y (List.mem_cons_of_mem _ hy)
+
 end QtVerif.Backup
